@@ -219,7 +219,7 @@ Section WithH.
                    | None => Ok (r_ctx st)
                    end);
        Ok {| r_pos := length (pre ++ rr); r_tsig := Some (owner, t); r_ctx := ctx';
-             r_recs := (3, TSIG, ANY, length pre) :: r_recs st |}).
+             r_recs := (3, TSIG, ANY, length pre) :: r_recs st; r_opt := r_opt st |}).
   Proof.
     intros pre owner t rr kr rmac now multi count st V A OKt RR P.
     unfold tsig_rr in RR. unfold NameM.to_wire in RR. rewrite A in RR. cbn [bind] in RR.
